@@ -43,10 +43,15 @@ def runPts (d iter tol n : Nat) (ws : List Int) (coords : List Nat) : String :=
   showTree n (runTree (withinTol (f64OfBits tol)) ⟨d, fuel⟩ iter pts ws bb.1 bb.2)
 
 /-- `rcbvar …`: the same data through another weight type / calling context / zero sign; the model
-has one input type and no context and replays zero signs exactly: it predicts the plain call. -/
+has one input type and no context and replays zero signs exactly: it predicts the plain call.
+`ribvar …` (same layout as `rib` with the variant token after `threads`): Rib with the weights in a
+narrower integer type (`wt_i8 … wt_u32`); the model's weights are integers without a range, it
+predicts the plain `rib` call. -/
 def dropVariant : List String → List String
   | "rcbvar" :: d :: iter :: tol :: threads :: _variant :: rest =>
     "rcb" :: d :: iter :: tol :: threads :: rest
+  | "ribvar" :: d :: iter :: tol :: threads :: _variant :: rest =>
+    "rib" :: d :: iter :: tol :: threads :: rest
   | t => t
 
 def handleCore (toks : List String) : String :=
